@@ -49,6 +49,8 @@ FnExprs(t) ==
              Fn3("clip", x, LitI(-2), LitI(3)), Fn3("clip", x, LitI(0), LitI(0)), Fn3("clip", y, LitI(1), LitI(65)),
              Fn3("clip", x, LitF(1, 2), LitF(5, 2)), Fn3("clip", x, LitF(-5, 2), LitI(1)), Fn3("clip", f, LitI(0), LitI(1)),
              Fn2("round", x, LitI(-1)), Fn2("round", y, LitI(-2)), Fn2("round", Fn2("mul", x, LitI(9)), LitI(-1)),
+             \* a constant argument that is an expression over literals, not a literal
+             Fn2("round", f, Fn2("sub", LitI(1), LitI(1))), Fn3("clip", x, Fn2("mul", LitI(-1), LitI(2)), Fn2("add", LitI(1), LitI(2))),
              FnN("hmax", <<p, q>>), FnN("hmin", <<p, q>>),
              FnN("hmin", <<x, y, LitI(1), Fn1("neg", x)>>), FnN("hmax", <<x, y, LitI(1), Fn1("neg", x)>>),
              FnN("hmin", <<LitI(7), Fn1("neg", y), y, x, LitI(3)>>), FnN("hmax", <<LitI(-7), Fn1("neg", y), y, x, LitN>>),
